@@ -11,6 +11,7 @@
     hyp geo geo
     bm q geo geo
     inc q geo geo n {xname nv {rat}* por}* dict dict
+    inch (same arguments as inc)   the heap model of transfer_from: `ok unchanged blocksOk fresh <incon>`
     gen q geo geo ng {xname xblock xtype ltab gx rate}* dictQ(sgridVol) n{xname rat}(tgrid) n{0|1}(incols)
         n{x}(top) n{x}(bottom) dict dict rename preserve
     genhyp geo ng {gen}* dictQ dictQ n{0|1} n{x} n{x} dict dict   (hypotheses of generator_transfer_identity)
@@ -205,6 +206,23 @@ def request : P String := do
     let m ← pDict
     let cm ← pDict
     pure (showExc shIncon (transferFrom (q t) inc s t m cm))
+  | "inch" => do
+    let q ← pQ centresOf
+    let s ← pGeo
+    let t ← pGeo
+    let inc ← pIncon
+    let m ← pDict
+    let cm ← pDict
+    let h0 : Heap := inc.map (fun p => ⟨p.1, p.2⟩)
+    let src : InconH := (enumFrom 0 inc).map (fun x => (x.2.1, x.1))
+    pure (showExc (fun (r : Heap × InconH) =>
+        let unchanged := decide (r.1.take h0.length = h0)
+        let view : List (Str × Option Obj) := readInc r.1 r.2
+        let blocksOk := view.all (fun p => match p.2 with | some o => o.block == p.1 | none => false)
+        let fresh := r.2.all (fun p => decide (h0.length ≤ p.2))
+        shB unchanged ++ " " ++ shB blocksOk ++ " " ++ shB fresh ++ " " ++
+          shIncon (view.map (fun p => (p.1, match p.2 with | some o => o.val | none => ⟨[], none, none⟩))))
+      (transferFromH (q t) h0 src s t m cm))
   | "gen" => do
     let q ← pQ centresOf
     let s ← pGeo
